@@ -910,50 +910,80 @@ func checkUnrollFresh(p *Program, r *Report, at *arrayType, tname string, rule s
 		return
 	}
 	bad := ""
-	for _, ret := range returnsOf(un) {
-		for _, o := range origins(ret.Results[0]) {
-			if o == nil {
-				bad = "may return nil"
-				continue
-			}
-			switch x := o.(type) {
-			case *ssa.MakeSlice:
-				continue
-			case *ssa.Slice:
-				if isImplValue(x.X) {
-					continue
-				}
-				if _, ok := x.X.(*ssa.Alloc); ok {
-					continue
-				}
-				if _, ok := vecBaseDeep(x).(*ssa.MakeSlice); ok {
-					continue
-				}
-			case *ssa.Alloc:
-				continue
-			}
-			if isImplValue(o) {
-				continue
-			}
-			if n, _, ok := loadedField(o); ok {
-				bad = fmt.Sprintf("returns the contents of field %s, a copy kept in the view object: later writes through other views are not seen", n)
-				continue
-			}
-			bad = "returns a value that is neither storage nor a slice built in this call: " + o.String()
+	// classify: what a value returned by Unroll (or by a helper it returns the result of) is
+	var classify func(o ssa.Value, recv ssa.Value, depth int) string
+	classify = func(o ssa.Value, recv ssa.Value, depth int) string {
+		if o == nil {
+			return "nil"
 		}
-	}
-	// a gathered copy may be returned only for non-contiguous views (Go back-end: contiguous views must alias)
-	if !at.cBack {
-		for _, ret := range returnsOf(un) {
-			gather := false
-			for _, o := range origins(ret.Results[0]) {
-				if _, ok := o.(*ssa.MakeSlice); ok {
-					gather = true
+		switch x := o.(type) {
+		case *ssa.MakeSlice:
+			return "fresh"
+		case *ssa.Slice:
+			if isImplValue(x.X) {
+				return "storage"
+			}
+			if _, ok := x.X.(*ssa.Alloc); ok {
+				return "fresh"
+			}
+			if _, ok := vecBaseDeep(x).(*ssa.MakeSlice); ok {
+				return "fresh"
+			}
+		case *ssa.Alloc:
+			return "fresh"
+		case *ssa.Call:
+			// a helper of the same receiver whose every result is storage or built in that call
+			f := x.Common().StaticCallee()
+			if f != nil && f.Blocks != nil && InModule(f) && depth < 3 && f.Signature.Recv() != nil && len(x.Common().Args) > 0 && origin1(x.Common().Args[0]) == recv {
+				kind := ""
+				for _, ret := range returnsOf(f) {
+					if len(ret.Results) != 1 {
+						return "other"
+					}
+					for _, o2 := range origins(ret.Results[0]) {
+						k := classify(o2, f.Params[0], depth+1)
+						if k != "fresh" && k != "storage" {
+							return k
+						}
+						if kind == "" || kind == k {
+							kind = k
+						} else {
+							return "other" // a helper mixing both cannot be judged at the call site
+						}
+					}
+				}
+				if kind != "" {
+					return kind
 				}
 			}
-			if gather && !contiguousGuard(ret.Block(), un.Params[0], false) {
-				bad = "can return a gathered copy on a path where the view may be contiguous (only Contiguous()==false justifies a copy): writes through the unrolled slice of a contiguous view are lost"
+		}
+		if isImplValue(o) {
+			return "storage"
+		}
+		if n, _, ok := loadedField(o); ok {
+			return "field:" + n
+		}
+		return "other"
+	}
+	for _, ret := range returnsOf(un) {
+		gather := false
+		for _, o := range origins(ret.Results[0]) {
+			k := classify(o, un.Params[0], 0)
+			switch {
+			case k == "fresh":
+				gather = true
+			case k == "storage":
+			case k == "nil":
+				bad = "may return nil"
+			case strings.HasPrefix(k, "field:"):
+				bad = fmt.Sprintf("returns the contents of field %s, a copy kept in the view object: later writes through other views are not seen", k[6:])
+			default:
+				bad = "returns a value that is neither storage nor a slice built in this call: " + o.String()
 			}
+		}
+		// a gathered copy may be returned only for non-contiguous views (Go back-end: contiguous views must alias)
+		if !at.cBack && gather && !contiguousGuard(ret.Block(), un.Params[0], false) {
+			bad = "can return a gathered copy on a path where the view may be contiguous (only Contiguous()==false justifies a copy): writes through the unrolled slice of a contiguous view are lost"
 		}
 	}
 	// the struct holds no element data besides Impl
